@@ -1,6 +1,8 @@
 """C08 — cmap-only fonts: no character is lost, duplicated or moved across clusters."""
-import unicodedata
+import os, sys, unicodedata
 import vlib, fontbuild
+
+sys.path.insert(0, os.path.join(os.path.dirname(os.path.dirname(os.path.abspath(__file__))), "gens"))
 
 MODULE = "RbModel.Props.C08"
 LEVEL = "proof"
@@ -88,13 +90,47 @@ def assigned(cp):
     return unicodedata.category(chr(cp)) not in ("Cn", "Cs", "Co")
 
 
+_CANON = None
+
+
+def composed_of(chars):
+    """every character whose full canonical decomposition consists of `chars` only and has more than one character or
+    differs from it: the primary composites AND the composition-excluded forms (presentation forms, singletons …) — the
+    characters canonically equivalent to a sequence over `chars`.  (Hangul syllables are covered by their ranges.)"""
+    global _CANON
+    if _CANON is None:
+        _CANON = []
+        for c in range(0x110000):
+            if 0xD800 <= c <= 0xDFFF:
+                continue
+            dm = unicodedata.decomposition(chr(c))
+            if dm and not dm.startswith("<"):
+                _CANON.append((c, frozenset(ord(x) for x in unicodedata.normalize("NFD", chr(c)))))
+    cs = set(chars)
+    return [c for c, d in _CANON if d <= cs and c not in cs]
+
+
 def alphabet(name):
+    """the assigned, visible characters of the script's ranges (also used by tools/scriptgen.py)"""
     out = []
     for a, b in SCRIPTS[name]:
         for cp in range(a, b + 1):
             if assigned(cp) and not is_di(cp) and not (0xFE00 <= cp <= 0xFE0F):
                 out.append(cp)
     return out
+
+
+_ALPHA = {}
+
+
+def alphabet_x(name):
+    """the script's ranges plus every character canonically equivalent to a sequence of them (compositions under NFC
+    and presentation forms such as U+FB1D..FB4E for Hebrew): a font of the conservation search maps all of them, so
+    a composition the shaper makes becomes visible, and the texts draw from them too"""
+    if name not in _ALPHA:
+        out = alphabet(name)
+        _ALPHA[name] = out + [c for c in composed_of(out) if assigned(c) and not is_di(c)]
+    return list(_ALPHA[name])
 
 
 def closure(cps):
@@ -146,7 +182,7 @@ def make_font(name, with_dotted_circle, with_space, vs_glyphs=True, uvs_bases=No
     (a glyph of its own standing for the pair) or a default entry (the base's nominal glyph stands for the pair).
     Returns the recipe, the cmap, the inverse map glyph -> character (or tuple of characters) and the set of
     (base, selector) pairs with a default entry."""
-    cps = closure(alphabet(name))
+    cps = closure(alphabet_x(name))
     extra = ([DOTTED_CIRCLE] if with_dotted_circle else []) + ([0x20] if with_space else [])
     # DI characters used by the REMOVE stream get glyphs too
     extra += [0x200C, 0x200D, 0x00AD, 0x034F, 0x2060]
@@ -372,7 +408,7 @@ def conservation_search(ctx, shim, r, per_script, scripts=None):
     groups, meta = [], []
     names = scripts or sorted(SCRIPTS)
     for si, name in enumerate(names):
-        alpha = alphabet(name)
+        alpha = alphabet_x(name)
         marks = [c for c in alpha if unicodedata.category(chr(c)).startswith("M")]
         edge = sorted(set(boundaries(alpha)) | set(source_boundaries(name, alpha)))
         src_edge = source_boundaries(name, alpha, with_unicode=False) or edge
@@ -489,6 +525,141 @@ def conservation_search(ctx, shim, r, per_script, scripts=None):
                          "additions/removals); non-trivial = more than one character")
 
 
+def report(ctx, stream, name, font_line, ln, x, text, flags, d, extra=None, inv_=None, rtl_=False):
+    cls = ("syllabic" if name in SYLLABIC else "other") + (":character-vanished" if d.get("vanished") else ":native-direction")
+    rp = {"stage": "search", "stream": stream, "script": name, "font_line": font_line, "class": cls, "kind": d["kind"],
+          "request": ln, "text": [f"{c:04X}" for c in text], "flags": flags, "deviation": d, "observed": x}
+    rp.update(extra or {})
+    used = {c for c in text} | {inv_[g] for g, _ in (parse_shape(x) or []) if isinstance(inv_.get(g), int)} if inv_ else set()
+    if inv_:
+        # enough of the font's glyph -> character map to judge the case again (`./check C08 --replay`)
+        rp["glyph_chars"] = {str(g): c for g, c in inv_.items() if isinstance(c, int) and (c in used or g in [q for q, _ in (parse_shape(x) or [])])}
+        rp["rtl"] = bool(rtl_)
+    ctx.violation(f"{name}: {d['kind']} ({' '.join(f'{c:04X}' for c in text)})", rp)
+
+
+def pair_search(ctx, shim, r, cap, U9):
+    """every (letter, mark) pair of a script whose mark is named in the shaper's source (the marks the shaper treats
+    specially: presentation-form tables, reordering rules, split vowels …), on the script's font — which maps every
+    composition and presentation form of the script — alone and with a mark of a lower class in between"""
+    groups, meta = [], []
+    for si, name in enumerate(sorted(SHAPER_SOURCES)):
+        alpha = alphabet_x(name)
+        marks = [c for c in alpha if unicodedata.category(chr(c)).startswith("M")]
+        mset = set(marks)
+        letters = [c for c in alpha if c not in mset and unicodedata.category(chr(c))[0] == "L"]
+        named = [c for c in source_boundaries(name, alpha, with_unicode=False) if c in mset]
+        if not letters or not named:
+            continue
+        pairs = [(l, m) for l in letters for m in named]
+        if len(pairs) > cap:
+            pairs = r.sample(pairs, cap)
+        rec, cmap, inv, _ = make_font(name, True, True)
+        fid = f"P{si}"
+        lines = [f"font {fid} {fontbuild.hexfont(rec)}"]
+        cases = []
+        for l, m in pairs:
+            lower = [x for x in marks if 0 < U9.mcc.get(x, 0) < U9.mcc.get(m, 0)]
+            texts = [[l, m]]
+            if lower and r.chance(1, 3):
+                texts.append([l, r.choice(lower), m])
+            for t in texts:
+                lines.append(f"shape {fid} - - - 0 0 - - - " + ",".join(f"{c:x}:{i}" for i, c in enumerate(t)))
+                cases.append(t)
+        groups.append(lines); meta.append((name, inv, cases))
+    outs = vlib.run_groups(shim, groups, timeout=600)
+    total = bad = 0
+    per, composed = {}, {}
+    for (name, inv, cases), g, o in zip(meta, groups, outs):
+        rtl = name in RTL_SCRIPTS
+        for t, ln, x in zip(cases, g[1:], o[1:]):
+            total += 1
+            out = parse_shape(x)
+            if out is None:
+                bad += 1
+                if bad <= 3:
+                    ctx.violation(f"shaping a cmap-only font did not return normally: {x[:160]}",
+                                  {"stage": "search", "stream": "letter-mark-pairs", "script": name, "font_line": g[0],
+                                   "request": ln, "observed": x})
+                continue
+            if len(out) < len(t):
+                composed[name] = composed.get(name, 0) + 1
+            d = check_case(t, out, inv, 0, True, False, rtl, True)
+            if d:
+                bad += 1
+                per[name] = per.get(name, 0) + 1
+                if per[name] <= 2 and sum(1 for v in per.values() if v) <= 4:
+                    report(ctx, "letter-mark-pairs", name, g[0], ln, x, t, 0, d, None, inv, rtl)
+    ctx.note_search("letter-mark-pairs", total, sum(composed.values()), deviations=bad, by_script=per, composed_by_script=composed,
+                    rule="per script with a dedicated shaper source: every pair <letter, mark> where the mark (or a neighbour) is a "
+                         "literal of the shaper's source, all pairs up to the cap (sampled beyond), one in three also with a mark "
+                         "of a lower modified class in between; the script's cmap-only font maps every character of the script's "
+                         "ranges and every character canonically equivalent to a sequence of them (NFC compositions, presentation "
+                         "forms); oracle as in `conservation`; non-trivial = the output has fewer glyphs than the text (composed)")
+
+
+def callback_search(ctx, shim, U9):
+    """probe-guided: every composition / decomposition that a shaper's own normalizer callback offers (enumerated on the
+    compiled crate by tools/gens/shaper_callbacks.py, cmap-only plan: has_gpos_mark = false) is exercised through
+    shape() on a font that has the composite, the two parts and everything they decompose to"""
+    import shaper_callbacks as SC
+    try:
+        R = SC.probe(shim)
+    except vlib.BuildError as e:
+        ctx.broken.append({"stage": "search", "stream": "callback-compositions", "log_tail": str(e)[-500:]})
+        return
+    ents = []
+    for (sh, g), ts in sorted(R["compose"].items()):
+        if g == 0:
+            ents += [("compose", sh, a, b, ab) for a, b, ab in ts]
+    for sh, ts in sorted(R["decompose"].items()):
+        ents += [("decompose", sh, a, b, ab) for ab, a, b in ts]
+    groups, meta = [], []
+    for kind, sh, a, b, ab in ents:
+        core = [c for c in (a, b, ab) if c]
+        if any(not assigned(c) for c in core):
+            continue
+        cps = closure(core)
+        blk = [c for c in range(a & ~0x7F, (a | 0x7F) + 1) if assigned(c)]
+        lower = [m for m in blk if b and 0 < U9.mcc.get(m, 0) < U9.mcc.get(b, 0)]
+        extra = lower[:2]
+        allc = sorted(set(cps) | set(composed_of(cps + extra)) | set(extra)) + [0x20, DOTTED_CIRCLE]
+        cmap = {cp: i + 1 for i, cp in enumerate(allc)}
+        inv = {g_: cp for cp, g_ in cmap.items()}
+        rec = {"cmap": cmap, "num_glyphs": len(allc) + 1, "advances": [600] * (len(allc) + 1)}
+        texts = [[a, b], [a, a, b, a]] + [[a, m, b] for m in extra] if kind == "compose" else [[ab], [a, ab, a] if a not in U9.marks else [ab, ab]]
+        lines = [f"font C {fontbuild.hexfont(rec)}"]
+        for t in texts:
+            lines.append("shape C - - - 0 0 - - - " + ",".join(f"{c:x}:{i}" for i, c in enumerate(t)))
+        groups.append(lines); meta.append((kind, sh, a, b, ab, inv, texts))
+    outs = vlib.run_groups(shim, groups, timeout=600)
+    total = bad = used = 0
+    dist = {}
+    for (kind, sh, a, b, ab, inv, texts), g, o in zip(meta, groups, outs):
+        rtl = unicodedata.bidirectional(chr(a)) in ("R", "AL")
+        for t, ln, x in zip(texts, g[1:], o[1:]):
+            total += 1
+            key = f"{kind}:{sh}"
+            dist[key] = dist.get(key, 0) + 1
+            out = parse_shape(x)
+            d = {"kind": "no output"} if out is None else check_case(t, out, inv, 0, True, False, rtl, True)
+            if out is not None and kind == "compose" and any(inv.get(g_) == ab for g_, _ in out):
+                used += 1
+            if d:
+                bad += 1
+                if bad <= 4:
+                    name = next((n for n in sorted(SCRIPTS) if any(lo <= a <= hi for lo, hi in SCRIPTS[n])), "other")
+                    report(ctx, "callback-compositions", name, g[0], ln, x, t, 0, d,
+                           {"callback": f"{sh}::{kind}", "offered": [f"{a:04X}", f"{b:04X}", f"{ab:04X}"]}, inv, rtl)
+    ctx.note_search("callback-compositions", total, used, deviations=bad, distribution=dist, entries=len(ents),
+                    rule="every (a, b, ab) that a shaper's own compose / decompose callback answers on the compiled crate over the "
+                         "blocks of its scripts (Hebrew presentation forms, Indic / Khmer / USE rules; plan without GPOS mark "
+                         "positioning), through shape(): <a b>, <a a b a>, <a m b> with a mark m of a lower class (compose), "
+                         "<ab> alone and in context (decompose), on a cmap-only font that maps a, b, ab, their decompositions "
+                         "and every character canonically equivalent to a sequence of them; oracle as in `conservation`; "
+                         "non-trivial = the offered composite's glyph is in the output")
+
+
 RECOMPOSED_CLASS = "variation-sequence-recomposed"
 
 
@@ -542,6 +713,7 @@ def run(ctx):
         "canonical equivalence is decided with CPython's unicodedata (Unicode 14): alphabets are restricted to characters assigned there",
         "the syllabic shapers (Indic, USE, Khmer, Myanmar) are not modelled in Lean: for them the property rests on this search only",
         "C08_default_shaper_conserves is about RbModel/Pipeline.lean (default shaper, fonts without layout tables), tied to the crate by the pipeline-shape stream",
+        "C08_hebrew_compose_canonical / C08_shaper_callbacks_canonical are about the answers of the shapers' own compose / decompose callbacks as probed on the compiled crate (Gen/HebrewCompose.lean, Gen/ShaperCallbacks.lean: hook verif::normalize::probe_compose / probe_decompose) over the blocks of their scripts, judged against CPython's canonical data (Gen/NormRef.lean); the same answers are shaped by the callback-compositions search",
         "C08_vs_round_keeps / C08_vs_round_chars are about Norm.vsLoop (RbModel/Norm.lean: handle_variation_selector_cluster with cmap format 14 as a parameter), tied to the crate by the norm-run-selectors stream (hook verif::normalize::normalize_vs)",
     ]
     ctx.regen()
@@ -561,6 +733,8 @@ def run(ctx):
                  if any(c in U9.vs for c, _, _ in C09.parse_text_tok(ln.split()[9]))]
     ctx.correspond("norm-run-selectors", lines=sel_lines, classify=C09.classify_run)
     recomposed_witness(ctx, shim)
+    callback_search(ctx, shim, U9)
+    pair_search(ctx, shim, ctx.rng("pairs"), ctx.budget(1500, 40000), U9)
     conservation_search(ctx, shim, ctx.rng("conservation"), ctx.budget(400, 12000))
 
 
@@ -568,4 +742,11 @@ def replay(ctx, rp):
     shim = vlib.build_harness()
     o = vlib.run_groups(shim, [[rp["font_line"], rp["request"]]], nproc=1)[0]
     print(o[1])
+    if "glyph_chars" in rp:
+        inv = {int(g): c for g, c in rp["glyph_chars"].items()}
+        text = [int(c, 16) for c in rp["text"]]
+        out = parse_shape(o[1])
+        d = {"kind": "no output"} if out is None else check_case(text, out, inv, rp.get("flags", 0), True, False, rp.get("rtl", False), True)
+        print("deviation:", d)
+        return 1 if d else 0
     return 0
